@@ -137,7 +137,7 @@ def run_sched_property(pid, tier, seed, level="other", level_note=None, extra_ca
         sample_case = byid[sample_key[0]]
         coverage = dict(
             obligations=len(names), discharged=len(done), theorems=names,
-            checker_cmd="cd /verif/coq && make -j16 && coqc -Q . GB Properties.v; coqc -Q . GB Properties2.v  (Print Assumptions under every theorem; coqchk -silent -o in the thorough tier)",
+            checker_cmd="cd /verif/coq && make -j16 && for f in Properties Properties2 Properties3; do coqc -Q . GB $f.v; done  (Print Assumptions under every theorem; coqchk -silent -o in the thorough tier)",
             trusted_base=common.TRUSTED_BASE, coqchk={k: v for k, v in chk.items() if k != "tail"},
             evaluations=len(go), scheduled_steps=nsteps, programs=len(cases),
             distinct_nontrivial=len(preempt_runs),
